@@ -326,7 +326,12 @@ def p_c20(run):
            ["-k", "zz"], ["-k", ""], ["-k", "00" * 49], ["-k", "00" * 15], ["-b", "64", "-k", "00" * 25], ["-b64", "-k", "00" * 7],
            good_k + ["-c", "00" * 17], good_k + ["-t", "00" * 17], good_k + ["-c", "xy"], ["-x"] + good_k, good_k[:1],
            ["-b", "128"], good_k + ["-b"], ["-k", "0"], ["-k", "0:"], ["-b", "64", "-k", "00" * 16, "-c", "00" * 9],
-           ["-b", "64", "-k", "00" * 17, "-t", "00"]]
+           ["-b", "64", "-k", "00" * 17, "-t", "00"],
+           # the same constraints with the options in another order: validity depends on the FINAL block size
+           ["-c", "00" * 9, "-k", "00" * 16, "-b", "64"], ["-t", "00" * 16, "-b", "64", "-k", "00" * 8],
+           ["-c", "00" * 12, "-b64", "-k", "00" * 8], ["-k", "00" * 25, "-b", "64"], ["-k", "00" * 48, "-b64"],
+           ["-k", "00" * 17, "-t", "01", "-b", "64"], ["-b", "64", "-b", "128", "-k", "00" * 8],
+           ["-b", "128", "-c", "00" * 16, "-k", "00" * 16, "-b", "64"]]
     for argv in bad:
         for tool in ("ctr", "tweak", "ecb"):
             cases.append((tool, list(argv), C.rbytes(rng, 40), "malformed"))
